@@ -20,8 +20,8 @@ from .. import tlc
 
 INVS = ["InvRoundTrip", "InvRefused", "InvLabelNeeded"]
 KEYS = {"k1": "S3JDVB7QD2R7JPXX", "k2": "GEZDGNBVGY3TQOJQGEZDGNBVGY3TQOJQ"}
-LABELS = {"l1": ["alice@example.org", "bob"], "l2": ["a b/c%d&e=f+g#h?i \xe9€@x", "50%/off&more=less", "sp ace"]}
-ISSUERS = {"i1": ["Example Corp", "acme"], "i2": ["is\xdf/ue%r&x=y+z", "a&b=c d"]}
+LABELS = {"l1": ["alice@example.org", "bob"], "l2": ["a b/c%d&e=f+g#h?i \xe9€@x", "50%/off&more=less", "sp ace", "/alice", "//a/", "%41lice", "+a+", "?x#y"]}
+ISSUERS = {"i1": ["Example Corp", "acme"], "i2": ["is\xdf/ue%r&x=y+z", "a&b=c d", "/Acme", "%2Facme/", "?who#"]}
 OTHER_KEY = "JBSWY3DPEHPK3PXPJBSWY3DPEHPK3PXP"
 TIMES = [59, 1111111109, 20000000000]
 CORR = ["none", "no-type", "bad-type", "fragment-type", "no-version", "future-version", "no-key", "bad-scheme", "no-label", "issuer-conflict",
@@ -95,29 +95,31 @@ def run(chk):
     classes = {}
     for e in cases:
         o, D, fmt, cor, res = e["o"], e["D"], e["fmt"], e["cor"], e["res"]
-        dk = json.dumps(D, sort_keys=True)
+        d8 = rnd.choice([7, 8, 9, 10, 10])          # the model's non-default digit count stands for every other admissible one
+        DG = {"6": 6, "8": d8}
+        dk = json.dumps([D, d8], sort_keys=True)
         if dk not in classes:
-            kw = dict(alg=D["alg"], digits=int(D["digits"]), period=int(D["period"]))
+            kw = dict(alg=D["alg"], digits=DG[D["digits"]], period=int(D["period"]))
             if D["issuer"] != "none":
                 kw["issuer"] = ISSUERS[D["issuer"]][0]
             classes[dk] = TOTP.using(**kw)
         cls = classes[dk]
         v = rnd.randrange(2)
         label = None if o["label"] == "none" else rnd.choice(LABELS[o["label"]])
-        issuer = None if o["issuer"] == "none" else ISSUERS[o["issuer"]][0 if o["issuer"] == D["issuer"] else rnd.randrange(2)]
+        issuer = None if o["issuer"] == "none" else ISSUERS[o["issuer"]][0 if o["issuer"] == D["issuer"] else rnd.randrange(len(ISSUERS[o["issuer"]]))]
         if o["issuer"] != "none" and o["issuer"] == D["issuer"]:
             issuer = ISSUERS[o["issuer"]][0]
         elif o["issuer"] != "none" and D["issuer"] != "none" and ISSUERS[o["issuer"]][0] == ISSUERS[D["issuer"]][0]:
             issuer = ISSUERS[o["issuer"]][1]
         if e["hist"] == "rekeyed":
             # made with another key, exported in every form, then given its key: only the current state may be written
-            obj = cls(key=OTHER_KEY, alg=o["alg"], digits=int(o["digits"]), period=int(o["period"]), label=label, issuer=issuer)
+            obj = cls(key=OTHER_KEY, alg=o["alg"], digits=DG[o["digits"]], period=int(o["period"]), label=label, issuer=issuer)
             obj.to_dict(), obj.to_json(), obj.pretty_key(), obj.hex_key, obj.generate(TIMES[0])
             if label:
                 obj.to_uri()
             obj.key = base64.b32decode(KEYS[o["key"]])
         else:
-            obj = cls(key=KEYS[o["key"]], alg=o["alg"], digits=int(o["digits"]), period=int(o["period"]), label=label, issuer=issuer)
+            obj = cls(key=KEYS[o["key"]], alg=o["alg"], digits=DG[o["digits"]], period=int(o["period"]), label=label, issuer=issuer)
         want = fields(obj)
         detail = {"object": want, "class_defaults": D, "format": fmt, "corruption": cor, "history": e["hist"]}
         if want["key"] != KEYS[o["key"]]:
